@@ -20,7 +20,7 @@ from __future__ import annotations
 
 import z3
 
-from pyvc.engine import Atom, FmtInt, GhostFn, SObj, SSeq, SStr, invariant_loop, invariant_while
+from pyvc.engine import Atom, FmtInt, GhostFn, SObj, SSeq, SStr, invariant_loop, invariant_while, is_z3
 from pyvc.verify import contract
 
 META = {
@@ -87,7 +87,9 @@ def _mk_layout_prs(specs):
     spTree = layout.shapes._spTree
     for sp in list(spTree.iter_shape_elms()):
         spTree.remove(sp)
-    for n, (tok, idx, orient, sz, xfrm) in enumerate(specs):
+    for n, spec in enumerate(specs):
+        tok, idx, orient, sz, xfrm = spec[:5]
+        kind = spec[5] if len(spec) > 5 else "sp"
         attrs = ""
         if tok is not None:
             attrs += ' type="%s"' % tok
@@ -100,10 +102,38 @@ def _mk_layout_prs(specs):
         x = '<a:xfrm><a:off x="%d" y="%d"/><a:ext cx="%d" cy="%d"/></a:xfrm>' % (100 + n, 200 + n, 300 + n, 400 + n) if xfrm else ""
         if xfrm == "zero":
             x = '<a:xfrm><a:off x="0" y="0"/><a:ext cx="0" cy="0"/></a:xfrm>'
-        sp = parse_xml('<p:sp %s><p:nvSpPr><p:cNvPr id="%d" name="L%d"/><p:cNvSpPr/><p:nvPr><p:ph%s/></p:nvPr></p:nvSpPr><p:spPr>%s</p:spPr>'
-                       '<p:txBody><a:bodyPr/><a:p/></p:txBody></p:sp>' % (nsdecls("p", "a"), n + 2, n, attrs, x))
+        if kind == "pic":  # a populated picture placeholder, as PowerPoint writes it on a layout
+            sp = parse_xml('<p:pic %s><p:nvPicPr><p:cNvPr id="%d" name="L%d"/><p:cNvPicPr/><p:nvPr><p:ph%s/></p:nvPr></p:nvPicPr>'
+                           '<p:blipFill><a:blip/><a:stretch><a:fillRect/></a:stretch></p:blipFill><p:spPr>%s</p:spPr></p:pic>'
+                           % (nsdecls("p", "a"), n + 2, n, attrs, x))
+        elif kind == "graphicFrame":  # a populated table placeholder; p:xfrm is a required child of p:graphicFrame
+            x = x or '<a:xfrm><a:off x="%d" y="%d"/><a:ext cx="%d" cy="%d"/></a:xfrm>' % (100 + n, 200 + n, 300 + n, 400 + n)
+            sp = parse_xml('<p:graphicFrame %s><p:nvGraphicFramePr><p:cNvPr id="%d" name="L%d"/><p:cNvGraphicFramePr/><p:nvPr><p:ph%s/></p:nvPr>'
+                           '</p:nvGraphicFramePr>%s<a:graphic><a:graphicData uri="http://schemas.openxmlformats.org/drawingml/2006/table">'
+                           '<a:tbl><a:tblPr/><a:tblGrid><a:gridCol w="100"/></a:tblGrid><a:tr h="100"><a:tc><a:txBody><a:bodyPr/><a:p/></a:txBody>'
+                           '<a:tcPr/></a:tc></a:tr></a:tbl></a:graphicData></a:graphic></p:graphicFrame>'
+                           % (nsdecls("p", "a"), n + 2, n, attrs, x.replace("a:xfrm", "p:xfrm")))
+        else:
+            sp = parse_xml('<p:sp %s><p:nvSpPr><p:cNvPr id="%d" name="L%d"/><p:cNvSpPr/><p:nvPr><p:ph%s/></p:nvPr></p:nvSpPr><p:spPr>%s</p:spPr>'
+                           '<p:txBody><a:bodyPr/><a:p/></p:txBody></p:sp>' % (nsdecls("p", "a"), n + 2, n, attrs, x))
         spTree.append(sp)
     return prs, layout
+
+
+def _xml_placeholders(spTree):
+    """The placeholder shapes of a shape tree read from the XML alone: every direct child carrying p:ph under its non-visual properties,
+    whatever its element type; [(element, (type, idx, orient, sz))] with the schema defaults filled in."""
+    from pptx.enum.shapes import PP_PLACEHOLDER as P
+
+    out = []
+    for e in spTree.iterchildren():
+        phs = e.xpath("./*[1]/p:nvPr/p:ph")
+        if not phs:
+            continue
+        ph = phs[0]
+        tok = ph.get("type")
+        out.append((e, (P.from_xml(tok) if tok else P.OBJECT, int(ph.get("idx", "0")), ph.get("orient", "horz"), ph.get("sz", "full"))))
+    return out
 
 
 def _check_slide_against_layout(prs, layout, before_ids=None):
@@ -117,15 +147,16 @@ def _check_slide_against_layout(prs, layout, before_ids=None):
         slide = prs.slides.add_slide(layout)
     except Exception as e:
         return "add_slide raised %r" % (e,)
-    want = [ph for ph in layout.placeholders if ph.element.ph_type not in latent]
+    lay_xml = _xml_placeholders(layout.shapes._spTree)
+    want = [k for _, k in lay_xml if k[0] not in latent]
     got = [slide.shapes._shape_factory(e) for e in slide.shapes._spTree.iter_ph_elms()]
-    if len(got) != len(want):
-        return "slide has %d placeholders, layout has %d cloneable" % (len(got), len(want))
-    for w, g in zip(want, got):
-        we, ge = w.element, g.element
-        if (we.ph_type, we.ph_idx, we.ph_orient, we.ph_sz) != (ge.ph_type, ge.ph_idx, ge.ph_orient, ge.ph_sz):
-            return "placeholder mismatch: layout (%s, idx %s, %s, %s) vs slide (%s, idx %s, %s, %s)" % (
-                we.ph_type, we.ph_idx, we.ph_orient, we.ph_sz, ge.ph_type, ge.ph_idx, ge.ph_orient, ge.ph_sz)
+    got_xml = [k for _, k in _xml_placeholders(slide.shapes._spTree)]
+    if len(got) != len(want) or len(got_xml) != len(want):
+        return "slide has %d placeholders, layout has %d cloneable" % (len(got_xml), len(want))
+    for w, g, gx in zip(want, got, got_xml):
+        ge = g.element
+        if w != (ge.ph_type, ge.ph_idx, ge.ph_orient, ge.ph_sz) or w != gx:
+            return "placeholder mismatch: layout (%s, idx %s, %s, %s) vs slide (%s, idx %s, %s, %s)" % (w + gx)
     names = [g.name for g in got]
     if len(set(names)) != len(names):
         return "placeholder names not unique: %s" % names
@@ -134,7 +165,7 @@ def _check_slide_against_layout(prs, layout, before_ids=None):
         return "shape ids not unique: %s" % ids
     # geometry: the counterpart is the first layout placeholder with the same idx
     for g in got:
-        base = next((w for w in layout.placeholders if w.element.ph_idx == g.element.ph_idx), None)
+        base = next((layout.shapes._shape_factory(e) for e, k in lay_xml if k[1] == g.element.ph_idx), None)
         for attr in ("left", "top", "width", "height"):
             try:
                 gv = getattr(g, attr)
@@ -509,6 +540,46 @@ def _layout_get(c):
     else:
         rj = r.fields["j"]
         c.ensures("post.first_match", z3.And(0 <= rj, rj < n, I(rj) == idx, z3.ForAll([j], z3.Implies(z3.And(0 <= j, j < rj), I(j) != idx))))
+
+
+def _replay_member(model, rec):
+    specs = [("pic", 1, None, None, True, "pic"), ("tbl", 2, None, None, True, "graphicFrame"), ("body", 3, None, None, True, "sp")]
+    prs, layout = _mk_layout_prs(specs)
+    got = [ph.element.ph_idx for ph in layout.placeholders]
+    if got != [1, 2, 3]:
+        return {"confirmed": True, "witness_class": "ph-member", "detail": "layout with p:pic, p:graphicFrame and p:sp placeholders (idx 1, 2, 3): .placeholders has idx %s" % got}
+    return {"confirmed": False, "detail": "every element type carrying p:ph is a member"}
+
+
+def _make_member(coll_name, elm_name):
+    @contract("C13", "C13.shapes.shapetree.%s._is_member_elm[%s]" % (coll_name, elm_name), replay=_replay_member)
+    def body(c):
+        """a shape element of any type is a member of the placeholder collection exactly when it carries p:ph."""
+        import pptx.oxml.shapes.autoshape as a_
+        import pptx.oxml.shapes.connector as c_
+        import pptx.oxml.shapes.graphfrm as g_
+        import pptx.oxml.shapes.groupshape as gs_
+        import pptx.oxml.shapes.picture as p_
+        import pptx.shapes.shapetree as st
+
+        ecls = {"CT_Shape": a_.CT_Shape, "CT_Picture": p_.CT_Picture, "CT_GraphicalObjectFrame": g_.CT_GraphicalObjectFrame,
+                "CT_GroupShape": gs_.CT_GroupShape, "CT_Connector": c_.CT_Connector}[elm_name]
+        has = c.bool("has_ph_elm")
+        elm = SObj(ecls, "shape_elm", has_ph_elm=has)
+        cls = getattr(st, coll_name)
+        out = c.run(cls._is_member_elm, elm)
+        if out.raised:
+            c.fails("never_raises", "raised %s" % out.exc)
+            return
+        r = out.value
+        c.ensures("post.member_iff_placeholder", (r if is_z3(r) else z3.BoolVal(bool(r))) == has)
+
+    return body
+
+
+for _cn in ("LayoutPlaceholders", "MasterPlaceholders", "NotesSlidePlaceholders"):
+    for _en in ("CT_Shape", "CT_Picture", "CT_GraphicalObjectFrame", "CT_GroupShape", "CT_Connector"):
+        _make_member(_cn, _en)
 
 
 def _make_master_get(cls_name):
@@ -926,7 +997,8 @@ def _native_layouts(tier="quick", seed=0):
     toks = _TOKENS + [None]
     for _ in range(N):
         k = rnd.randint(0, 5)
-        specs = [(rnd.choice(toks), rnd.choice([None, 0, 1, 1, 10, 11, 4294967295]), rnd.choice([None, "vert", "horz"]), rnd.choice([None, "full", "half", "quarter"]), rnd.random() < 0.5)
+        specs = [(rnd.choice(toks), rnd.choice([None, 0, 1, 1, 10, 11, 4294967295]), rnd.choice([None, "vert", "horz"]), rnd.choice([None, "full", "half", "quarter"]), rnd.random() < 0.5,
+                  rnd.choice(["sp", "sp", "sp", "sp", "pic", "graphicFrame"]))
                  for _ in range(k)]
         p, layout = _mk_layout_prs(specs)
         b = _check_slide_against_layout(p, layout) or _check_slide_against_layout(p, layout)
@@ -989,11 +1061,11 @@ def _native_layouts(tier="quick", seed=0):
         evals += 1
         try:
             ns = s.notes_slide
-            want = [ph for ph in nm.placeholders if ph.element.ph_type in (P.SLIDE_IMAGE, P.BODY, P.SLIDE_NUMBER)]
+            want = [k for _, k in _xml_placeholders(nm.shapes._spTree) if k[0] in (P.SLIDE_IMAGE, P.BODY, P.SLIDE_NUMBER)]
             got = list(ns.placeholders)
             key = lambda q: (q.element.ph_type, q.element.ph_idx, q.element.ph_orient, q.element.ph_sz)
-            if [key(w) for w in want] != [key(g) for g in got]:
-                bad = bad or "notes master arranged %s: notes slide placeholders %s, the master's cloneable ones are %s" % (arr, [g.element.ph_type for g in got], [w.element.ph_type for w in want])
+            if want != [key(g) for g in got] or want != [k for _, k in _xml_placeholders(ns.shapes._spTree)]:
+                bad = bad or "notes master arranged %s: notes slide placeholders %s, the master's cloneable ones are %s" % (arr, [g.element.ph_type for g in got], [w[0] for w in want])
             names = [g.name for g in got]
             if len(set(names)) != len(names):
                 bad = bad or "notes master arranged %s: notes placeholder names not unique %s" % (arr, names)
